@@ -279,6 +279,19 @@ def unsafe_repair_history(rng, v1):
             ("unsafe!", mk(), {}, cmd)]
 
 
+def cut_repair_history(rng, v1, at):
+    """A link error; the next request's repair is cut short by a time-out at its at-th bring-up exchange (2 = mode,
+    3 = version, 4 = parameters; the device is fine); two more requests. Nothing here may stop the manager and every
+    request gets a coded reply."""
+    ver = 1 if v1 else 5
+    cmd = "getPubKey"
+    mk = lambda: json.dumps(reqs.make(cmd, random.Random(rng.random()), ver)[0]).encode()   # noqa: E731
+    return [("linkfault", mk(), {"fault": {"at": 0, "spec": [rng.choice(["write", "read"])]}}, cmd),
+            ("timeout", mk(), {"bringup_fault": {"at": at, "spec": ["timeout"]}}, cmd),
+            ("client", mk(), {}, cmd),
+            ("client", mk(), {}, cmd)]
+
+
 GOOD_ENV = {"onb": "yes", "mode1": "signer", "uiver": [5, 4, 1], "echo": "t", "retries": 3, "unlock": "t",
             "newpin": "ack", "mode2": "signer", "appver": [5, 4, 1]}
 
